@@ -1055,6 +1055,10 @@ static void add_console_line (interactive_t *ip, const char *line_buffer, size_t
 void process_io () {
 
   int i;
+  /* new_interactive() and mudlib_connect() set command_giver for connect()
+   * and logon(). Nothing in here is a user command: do not leave it pointing
+   * to an object that can be destructed and freed before it is set again. */
+  object_t *save_command_giver = command_giver;
 
   if (g_num_io_events > 0)
     opt_trace (TT_COMM|3, "process_io: processing %d events", g_num_io_events);
@@ -1212,6 +1216,7 @@ void process_io () {
             }
         }
     }
+  command_giver = save_command_giver;
   
   /* Flush console user output if connected (console is always writable) */
   if (all_users && all_users[0])
